@@ -87,6 +87,12 @@ var c12classes = []c12class{
 	{"float-minus-string", `{{ zq_f - zq_s }}`, true, false},
 	{"float-less-string", `{{ zq_f <= zq_s }}`, true, false},
 	{"int-less-string", `{{ zq_i > "seven" }}`, true, false},
+	{"two-value-lookup-index-out-of-range", `{{ v, ok := zq_xs[7] }}`, true, false},
+	{"two-value-lookup-negative-index", `{{ v, ok := zq_xs[-1] }}`, true, false},
+	{"two-value-lookup-string-index-on-slice", `{{ if v, ok := zq_xs["a"]; ok }}x{{ end }}`, true, false},
+	{"two-value-lookup-key-of-wrong-kind", `{{ v, ok := zq_mi["a"] }}`, true, false},
+	{"two-value-lookup-on-int", `{{ _, ok := zq_i[0] }}`, true, false},
+	{"two-value-assign-index-out-of-range", `{{ v := 1 }}{{ ok := 1 }}{{ v, ok = zq_xs[7] }}`, true, false},
 	{"call-non-func-paren", `{{ zq_i() }}`, true, false},
 	{"call-non-func-colon", `{{ zq_i: 1 }}`, true, false},
 	{"call-non-func-pipe", `{{ 1 | zq_i }}`, true, false},
